@@ -1,4 +1,4 @@
-CONSTANTS Variant = "DetachAsData"
+CONSTANTS Variant = "DetachAsData"  ALens = {"natural"}  Slim = FALSE
 SPECIFICATION Spec
 INVARIANTS TypeOK SignedPartsSame MandatoryAttrsOnce RefuseOnlyWhenJustified
 CHECK_DEADLOCK FALSE
